@@ -206,12 +206,96 @@ theorem union_fallback_A (f : Flags) {tag : String} (htA : publicTag? A c tag = 
 
 end sim
 
+/-! ### documents without anything unknown, at a union -/
+
+theorem knownDoc_union_str (A : Env) (fl : Flags) (c tag : String) :
+    knownDoc A (.union fl c) (.str tag) = (publicTag? A c tag).isSome := by
+  unfold knownDoc; rfl
+
+theorem isVoidT_union (fl : Flags) (c : String) : isVoidT (.union fl c) = false := rfl
+
+theorem knownDoc_union_unknown (A : Env) (fl : Flags) (c : String) {kvs : List (String × JVal)} {tag : String}
+    (hk : jsonLookup ".tag" kvs = some (.str tag)) (ht : publicTag? A c tag = none) :
+    knownDoc A (.union fl c) (.obj kvs) = false := by
+  unfold knownDoc
+  simp only [isVoidT_union, Bool.false_eq_true, if_false, hk, ht]
+
+theorem knownDoc_union_void (A : Env) (fl : Flags) (c : String) {kvs : List (String × JVal)} {tag : String} {td : TagDef}
+    (hk : jsonLookup ".tag" kvs = some (.str tag)) (ht : publicTag? A c tag = some td) (hv : isVoidT td.ty = true) :
+    knownDoc A (.union fl c) (.obj kvs) =
+      kvs.all fun kx => kx.1 == ".tag" || (kx.1 == tag && (match kx.2 with | .null => true | _ => false)) := by
+  unfold knownDoc
+  simp only [isVoidT_union, Bool.false_eq_true, if_false, hk, ht, hv, if_true]
+  rfl
+
+theorem knownDoc_union_struct (A : Env) (fl : Flags) (c : String) {kvs : List (String × JVal)} {tag : String} {td : TagDef}
+    (hk : jsonLookup ".tag" kvs = some (.str tag)) (ht : publicTag? A c tag = some td) {sfl : Flags} {sc : String}
+    (hq : td.ty = .struct sfl sc) :
+    knownDoc A (.union fl c) (.obj kvs) = knownMembers A (structTable A sc) kvs := by
+  have hv : isVoidT td.ty = false := by rw [hq]; rfl
+  unfold knownDoc
+  simp only [isVoidT_union, Bool.false_eq_true, if_false, hk, ht, hv]
+  rw [hq]
+
+theorem knownDoc_union_nested (A : Env) (fl : Flags) (c : String) {kvs : List (String × JVal)} {tag : String} {td : TagDef}
+    (hk : jsonLookup ".tag" kvs = some (.str tag)) (ht : publicTag? A c tag = some td)
+    (hv : isVoidT td.ty = false) (hp : isPlainStruct td.ty = false) :
+    knownDoc A (.union fl c) (.obj kvs) = knownMembers A [(tag, td.ty.withFlags {})] kvs := by
+  unfold knownDoc
+  simp only [isVoidT_union, Bool.false_eq_true, if_false, hk, ht, hv]
+  cases hq : td.ty <;> simp_all [isPlainStruct]
+
+/-- only the discriminator, or the tag's own key with `null`: the strict check of a Void tag passes -/
+theorem void_strict_ok (tag : String) (htag : tag ≠ ".tag") : ∀ (kvs : List (String × JVal)),
+    (kvs.all fun kx => kx.1 == ".tag" || (kx.1 == tag && (match kx.2 with | .null => true | _ => false))) = true →
+    ((match jsonLookup tag kvs with | some .null | none => false | some _ => true) ||
+      kvs.any fun (k, _) => k != tag && k != ".tag") = false
+  | [], _ => rfl
+  | (k, x) :: rest, h => by
+    simp only [List.all_cons, Bool.and_eq_true] at h
+    have ih := void_strict_ok tag htag rest h.2
+    simp only [Bool.or_eq_false_iff] at ih
+    by_cases hk : k = tag
+    · subst hk
+      have hx : x = .null := by
+        have h1 := h.1
+        have : (k == ".tag") = false := by simpa using htag
+        simp only [this, Bool.false_or, beq_self_eq_true, Bool.true_and] at h1
+        cases x <;> simp_all
+      subst hx
+      simp [jsonLookup, ih.2]
+    · have hne : (k == tag) = false := by simpa using hk
+      have hdot : k = ".tag" := by
+        have h1 := h.1
+        simpa [hne] using h1
+      subst hdot
+      simp only [jsonLookup, hne]
+      simp [ih.1, ih.2]
+
+theorem publicTag_ne_dotTag {env : Env} (hwf : envWF env = true) {cls tag : String} {td : TagDef}
+    (h : publicTag? env cls tag = some td) : tag ≠ ".tag" := by
+  unfold publicTag? at h
+  cases hu : env.union? cls with
+  | none => simp [hu] at h
+  | some u =>
+    simp only [hu] at h
+    obtain ⟨hm, hn⟩ := findTag_some_mem h
+    have hw := union_wf hwf hu
+    simp only [UnionDef.wf, Bool.and_eq_true, List.all_eq_true] at hw
+    rw [tagsSpec_nil] at hm
+    have := (hw.1.1.2 td (List.mem_filter.mp hm).1).1.1
+    intro hc
+    rw [← hn] at hc
+    rw [hc] at this
+    simp at this
+
 theorem decode_union_sub (E : Ext) {ρ : Rho} {A B : Env} (cx : Ctx ρ A B) {f g : Flags} {c c' : String}
-    (hr : ρ.rel c c' = true) {ua : UnionDef} (hua : A.union? c = some ua) (j : JVal) (sB : Bool) (w : PyVal)
+    (hr : ρ.rel c c' = true) {ua : UnionDef} (hua : A.union? c = some ua) (j : JVal) (sA sB : Bool) (w : PyVal)
     (hnn : (g.nullable && isNullJ j) = false)
-    (hIH : ∀ kvs, j = .obj kvs → MembersIH E ρ A B sB kvs)
+    (hIH : ∀ kvs, j = .obj kvs → MembersIH E ρ A B sA sB kvs)
+    (hk : sA = true → knownDoc A (.union f c) j = true)
     (h : decode E B [] sB (.union g c') j = .ok w) :
-    decode E A [] false (.union f c) j = .ok (view ρ A (.union f c) w) := by
+    decode E A [] sA (.union f c) j = .ok (view ρ A (.union f c) w) := by
   obtain ⟨ub, hub, hcaEq, _, _⟩ := unionSub_inv (compat_union cx.compat hr hua) hua
   have hT := tagsRel cx hr hua
   have hcaA : catchAllOf A c = ua.catchAll := by simp [catchAllOf, hua]
@@ -224,10 +308,17 @@ theorem decode_union_sub (E : Ext) {ρ : Rho} {A B : Env} (cx : Ctx ρ A B) {f g
       rw [htB] at h1; cases h1
   cases j with
   | str tag =>
+    rw [knownDoc_union_str] at hk
     cases htB : publicTag? B c' tag with
     | none =>
+      have htA := hnotA tag htB
+      have hsA : sA = false := by
+        cases sA with
+        | false => rfl
+        | true => have := hk rfl; simp [htA] at this
+      subst hsA
       rw [decode_union_str_unknown E cx.wfB sB g hub htB] at h
-      rw [decode_union_str_unknown E cx.wfA false f hua (hnotA tag htB)]
+      rw [decode_union_str_unknown E cx.wfA false f hua htA]
       exact union_fallback_both E cx hua hub hcaEq f sB w h
     | some tdB =>
       rw [decode_union_str_known E cx.wfB sB g hub htB] at h
@@ -242,10 +333,15 @@ theorem decode_union_sub (E : Ext) {ρ : Rho} {A B : Env} (cx : Ctx ρ A B) {f g
           subst hw
           cases htA : publicTag? A c tag with
           | none =>
+            have hsA : sA = false := by
+              cases sA with
+              | false => rfl
+              | true => have := hk rfl; simp [htA] at this
+            subst hsA
             rw [decode_union_str_unknown E cx.wfA false f hua htA]
             exact union_fallback_A E cx hua hub hcaEq f htA (hT.fresh tag tdB htA htB) p
           | some tdA =>
-            rw [decode_union_str_known E cx.wfA false f hua htA, hcaEq, hnc]
+            rw [decode_union_str_known E cx.wfA sA f hua htA, hcaEq, hnc]
             obtain ⟨tdB', h1, hty⟩ := hT.known tag tdA htA
             rw [htB] at h1; cases h1
             rcases hty with hty | ⟨hvoid, _⟩
@@ -273,8 +369,14 @@ theorem decode_union_sub (E : Ext) {ρ : Rho} {A B : Env} (cx : Ctx ρ A B) {f g
       | str tag =>
         cases htB : publicTag? B c' tag with
         | none =>
+          have htA := hnotA tag htB
+          have hsA : sA = false := by
+            cases sA with
+            | false => rfl
+            | true => have := hk rfl; simp [knownDoc_union_unknown A f c ht htA] at this
+          subst hsA
           rw [decode_union_obj_unknown E cx.wfB sB g hub ht htB] at h
-          rw [decode_union_obj_unknown E cx.wfA false f hua ht (hnotA tag htB)]
+          rw [decode_union_obj_unknown E cx.wfA false f hua ht htA]
           exact union_fallback_both E cx hua hub hcaEq f sB w h
         | some tdB =>
           by_cases hnc : (some tag == ub.catchAll) = true
@@ -305,6 +407,11 @@ theorem decode_union_sub (E : Ext) {ρ : Rho} {A B : Env} (cx : Ctx ρ A B) {f g
                     · exact mkUnion_shape E h
             cases htA : publicTag? A c tag with
             | none =>
+              have hsA : sA = false := by
+                cases sA with
+                | false => rfl
+                | true => have := hk rfl; simp [knownDoc_union_unknown A f c ht htA] at this
+              subst hsA
               obtain ⟨p, hw⟩ := hshape
               subst hw
               rw [decode_union_obj_unknown E cx.wfA false f hua ht htA]
@@ -312,6 +419,17 @@ theorem decode_union_sub (E : Ext) {ρ : Rho} {A B : Env} (cx : Ctx ρ A B) {f g
             | some tdA =>
               obtain ⟨tdB', h1, hty⟩ := hT.known tag tdA htA
               rw [htB] at h1; cases h1
+              -- the strict check of a Void tag of A, when A is strict
+              have hvoidA : isVoidT tdA.ty = true →
+                  decode E A [] sA (.union f c) (.obj kvs) = mkUnion E A c tag .none := by
+                intro hvA
+                rw [decode_union_obj_void E cx.wfA sA f hua ht htA hncA hvA]
+                cases sA with
+                | false => simp
+                | true =>
+                  have := hk rfl
+                  rw [knownDoc_union_void A f c ht htA hvA] at this
+                  simp [void_strict_ok tag (publicTag_ne_dotTag cx.wfA htA) kvs this]
               rcases hty with hty | ⟨hvoid, _⟩
               · have hn := tySub_nullable hty
                 have hvd := tySub_isVoid hty
@@ -319,7 +437,7 @@ theorem decode_union_sub (E : Ext) {ρ : Rho} {A B : Env} (cx : Ctx ρ A B) {f g
                 by_cases hv : isVoidT tdB.ty = true
                 · -- Void on both sides
                   rw [decode_union_obj_void E cx.wfB sB g hub ht htB hnc hv] at h
-                  rw [decode_union_obj_void E cx.wfA false f hua ht htA hncA (hvd ▸ hv)]
+                  rw [hvoidA (hvd ▸ hv)]
                   have h := (of_ite_verr h).2
                   rw [mkUnion_void E cx.wfB hub htB hv] at h
                   cases h
@@ -334,7 +452,8 @@ theorem decode_union_sub (E : Ext) {ρ : Rho} {A B : Env} (cx : Ctx ρ A B) {f g
                     cases hqA : tdA.ty <;> simp [hqA, hqB, tySub] at hty
                     rename_i fA scA
                     rw [decode_union_obj_struct E cx.wfB sB g hub ht htB hnc hqB] at h
-                    rw [decode_union_obj_struct E cx.wfA false f hua ht htA hncA hqA, hty.1]
+                    rw [decode_union_obj_struct E cx.wfA sA f hua ht htA hncA hqA, hty.1]
+                    rw [knownDoc_union_struct A f c ht htA hqA] at hk
                     have htySub : tySub ρ tdA.ty tdB.ty = true := by rw [hqA, hqB]; simp [tySub, hty]
                     by_cases hlen : (gB.nullable && kvs.length == 1) = true
                     · simp only [hlen, if_true] at h ⊢
@@ -353,7 +472,7 @@ theorem decode_union_sub (E : Ext) {ρ : Rho} {A B : Env} (cx : Ctx ρ A B) {f g
                       | ok v =>
                         simp only [hfin] at h
                         obtain ⟨slotsB, hvw, hA⟩ := finishStruct_sub E cx hsa' hsb' hrel.common kvs
-                          (children_struct cx hIH' hrel.common) sB v hfin
+                          (children_struct cx hIH' hk hrel.common) sA sB v hk hfin
                         obtain ⟨hw, hmk⟩ := mkUnion_sub E cx hua hub htA htB htySub v w h
                         rw [hA]
                         simp only []
@@ -365,9 +484,10 @@ theorem decode_union_sub (E : Ext) {ρ : Rho} {A B : Env} (cx : Ctx ρ A B) {f g
                     have hpA : isPlainStruct tdA.ty = false := by
                       cases hqA : tdA.ty <;> cases hqB : tdB.ty <;> simp_all [tySub, isPlainStruct]
                     rw [decode_union_obj_nested E cx.wfB sB g hub ht htB hnc hv hp] at h
-                    rw [decode_union_obj_nested E cx.wfA false f hua ht htA hncA hvA hpA]
+                    rw [decode_union_obj_nested E cx.wfA sA f hua ht htA hncA hvA hpA]
+                    rw [knownDoc_union_nested A f c ht htA hvA hpA] at hk
                     have hcr := hIH' [(tag, tdA.ty.withFlags {})] [(tag, tdB.ty.withFlags {})] tag
-                      (tdA.ty.withFlags {}) (tdB.ty.withFlags {}) (by simp) (by simp) (tySub_withFlags hty)
+                      (tdA.ty.withFlags {}) (tdB.ty.withFlags {}) hk (by simp) (by simp) (tySub_withFlags hty)
                       (tyWF_withFlags hwA hvA)
                     unfold ChildRel at hcr
                     cases hpl : payloadOf (childLookup tag (decodeMembers E B [] sB [(tag, tdB.ty.withFlags {})] kvs))
@@ -375,7 +495,7 @@ theorem decode_union_sub (E : Ext) {ρ : Rho} {A B : Env} (cx : Ctx ρ A B) {f g
                     | error e => simp [hpl] at h
                     | ok v =>
                       simp only [hpl] at h
-                      have hplA : payloadOf (childLookup tag (decodeMembers E A [] false [(tag, tdA.ty.withFlags {})] kvs))
+                      have hplA : payloadOf (childLookup tag (decodeMembers E A [] sA [(tag, tdA.ty.withFlags {})] kvs))
                           (jsonLookup tag kvs).isSome tdA.ty.flags.nullable = .ok (view ρ A tdA.ty v) := by
                         unfold payloadOf at hpl ⊢
                         cases hcl : childLookup tag (decodeMembers E B [] sB [(tag, tdB.ty.withFlags {})] kvs) with
@@ -390,8 +510,8 @@ theorem decode_union_sub (E : Ext) {ρ : Rho} {A B : Env} (cx : Ctx ρ A B) {f g
                           simp only []
                           split at hpl
                           · cases hpl
-                          · rename_i hk
-                            simp only [hk, Bool.false_eq_true, if_false]
+                          · rename_i hk'
+                            simp only [hk', Bool.false_eq_true, if_false]
                             split at hpl
                             · rename_i hnl
                               cases hpl
@@ -406,10 +526,10 @@ theorem decode_union_sub (E : Ext) {ρ : Rho} {A B : Env} (cx : Ctx ρ A B) {f g
                         simp only [hany, Bool.false_eq_true, if_false]
                         rw [hmk, hw, view_union_known ρ A f _ _ htA]
                         simp [hvA]
-              · -- Void in A, typed in B: A ignores whatever else the object holds
+              · -- Void in A, typed in B: A ignores whatever else the object holds (when lenient), or finds it bare
                 obtain ⟨p, hw⟩ := hshape
                 subst hw
-                rw [decode_union_obj_void E cx.wfA false f hua ht htA hncA hvoid]
+                rw [hvoidA hvoid]
                 rw [mkUnion_void E cx.wfA hua htA hvoid, view_union_known ρ A f _ _ htA]
                 simp [hvoid]
       | _ => unfold decode at h; simp [ht, hub, PTy.flags, verr] at h
